@@ -184,8 +184,7 @@ ParsesIn(m, kind, s, p, ntok, alts, withCtx) ==
 (* ------------------------------------------------------------------------ *)
 T       == Traces[tid]
 Op      == T.op
-OpFits  == Op.kind \in KindsOf(T.mode)
-             /\ (T.mode = "all" \/ ParsesIn(T.mode, Op.kind, Op.s, Op.p, 1, Op.alts, FALSE))
+OpFits  == Op.kind \in KindsOf(T.mode) /\ ParsesIn(T.mode, Op.kind, Op.s, Op.p, 1, Op.alts, FALSE)
 
 (* domain restriction OperandNotInMode: the result is structurally the operand *)
 (* itself (no conversion happened) and the operand's own text does not parse   *)
